@@ -97,7 +97,16 @@ P = {
          "the stored config itself. The equivalence with a plain tree over all operation histories is value-level and not decided.",
          TRUST,
          "§3 C12"),
- "C13": (False, "", "", "", "§3 C13"),
+ "C13": (True,
+         "reflect alias analysis + commit-last path rule + enum-dispatch agreement on SSA (custom analyzer)",
+         "Decides the failure-atomicity clause for all struct types and configurations: in reifyStruct every value aliasing the caller's struct is only "
+         "read, copied out of, or the receiver of exactly one final Set whose operand derives from the fresh working copy and which is followed only by "
+         "`return nil`; no other function ever receives an alias, so InitDefaults, field unpacking, Unpacker calls and validation run on the copy and "
+         "every failing exit precedes the commit. reifySliceMerge only reads the old slice and returns a fresh one; accessField guards the field access "
+         "by the exported/!ignore tests and callers use it only under !skip; Unpack's list-policy dispatch partitions the policies exactly like Merge's. "
+         "Which fields are overwritten is value-level and not decided; maps and pointees are excluded by the property.",
+         TRUST,
+         "§3 C13"),
  "C14": (True,
          "interprocedural error-provenance (value-flow) analysis on SSA (E9, custom) + non-nil and pairing rules at constructor sites",
          "Decides the type half of the property for all inputs: every value that can reach an `error` result of the Config API (19 entry points) is "
